@@ -912,7 +912,7 @@ def history_check(op, x, d, r1, tol):
 NOT_PROVIDED = ['<no derivative provided: NotImplementedError>']
 
 
-def oracle_on(op, x, d, exact_linear=True, tol=1e-7, rate=True, allow_notimpl=False):
+def oracle_on(op, x, d, exact_linear=True, tol=1e-7, rate=True, allow_notimpl=False, history=True):
     """All oracle checks of the property for one operator / base point / direction.
     Returns (problems, D, Dd)."""
     problems = []
@@ -958,7 +958,7 @@ def oracle_on(op, x, d, exact_linear=True, tol=1e-7, rate=True, allow_notimpl=Fa
             msg = cd_check(op, x, d, Dd, tol=tol, rate=rate)
         if msg:
             problems.append(msg)
-        if not problems:
+        if history and not problems:
             problems.extend(history_check(op, x, d, Dd, tol))
     except Exception as e:  # noqa
         problems.append('evaluation raised {}: {}'.format(type(e).__name__, str(e)[:200]))
@@ -1010,6 +1010,10 @@ def branch_tags(n, op):
     return tags
 
 
+_TREE_N = [0]
+QUICK = [False]
+
+
 def run_tree_case(c):
     """Run the real code on one exact-stream case. Returns (line, impl dict | error string, problems)."""
     spec = c['spec']
@@ -1024,7 +1028,9 @@ def run_tree_case(c):
     sub_flag = flag_problems_of_built()
     S = spec['dom']
     x, d = elem(S, c['x']), elem(S, c['d'])
-    problems, D, Dd = oracle_on(op, x, d)
+    _TREE_N[0] += 1
+    # (history stratum on every second exact tree in the quick tier: run time)
+    problems, D, Dd = oracle_on(op, x, d, history=(not QUICK[0]) or _TREE_N[0] % 2 == 0)
     problems = sub_flag + problems
     try:
         val = flat(op(x))
@@ -2053,6 +2059,7 @@ def fixed_cases():
 
 def run(ctx):
     quick = ctx.quick
+    QUICK[0] = bool(quick)
     # fixed corner cases first (temporaries with domain != range)
     batch, lines = [], []
     for c in fixed_cases():
